@@ -1,6 +1,7 @@
 package main
 
 import (
+	"go/types"
 	"go/constant"
 	"strings"
 
@@ -511,6 +512,25 @@ func slSinks(P *Program, owner, name string) []*ssa.Store {
 		if a.Kind == "write" {
 			out = append(out, a.Use.(*ssa.Store))
 		}
+	}
+	// `*p = T{}`: the zero value stored over the whole struct sets the field to its zero value
+	for _, fn := range P.Funcs {
+		eachInstr(fn, func(in ssa.Instruction) {
+			st, ok := in.(*ssa.Store)
+			if !ok {
+				return
+			}
+			k, isK := st.Val.(*ssa.Const)
+			if !isK || k.Value != nil {
+				return
+			}
+			if _, isStruct := k.Type().Underlying().(*types.Struct); !isStruct {
+				return
+			}
+			if ownerName(k.Type()) == owner {
+				out = append(out, st)
+			}
+		})
 	}
 	return out
 }
